@@ -4,7 +4,7 @@ use bytesstr::BytesStr;
 use internal::IResult;
 use nom::branch::alt;
 use nom::bytes::complete::{tag_no_case, take_while1};
-use nom::combinator::map;
+use nom::combinator::{all_consuming, map};
 use std::fmt;
 
 /// Represents a SIP-Method.
@@ -39,9 +39,10 @@ macro_rules! methods {
             $(pub const $ident : Self = Self(Repr :: $ident );)+
 
             pub fn from_parse(src: &Bytes, slice: &str) -> Self {
+                // the whole token must match, `INVITEX` is not `INVITE`
                 if let Ok((_, repr)) = alt((
                    $(
-                   map(tag_no_case($print), |_| Repr::$ident),
+                   map(all_consuming(tag_no_case($print)), |_| Repr::$ident),
                    )*
                 ))(slice) as IResult<&str, Repr> {
                     Self(repr)
